@@ -309,6 +309,7 @@ def contraction_adjoints(ctx, world):
                 bad = (na, nb, axes, f"returns axes {getattr(res, 'labels', res)}, expected {want.labels}")
         inst = f"{mod}.{name}"
         loc = loc_of(m, node)
+        ctx.extra["A17_contraction_configurations_evaluated"] = ctx.extra.get("A17_contraction_configurations_evaluated", 0) + total
         if bad:
             na, nb, axes, why = bad
             ctx.fail("A17", inst, inst, loc, f"{name} for A of rank {na}, B of rank {nb}, axes={axes}: {why}", f"np.tensordot(A, B, axes={axes}) with operands of ranks {na} and {nb}, differentiated w.r.t. operand {which} (dimensions of equal size make it silent)", sample=f"{decided}/{total}")
